@@ -203,7 +203,82 @@ fn run_prog(inss: &[&str]) -> Option<String> {
     Some(format!("{}\t{}", vals.join(" "), can.join(" ")))
 }
 
+fn big_op(op: &str, a: &[&str]) -> Option<String> {
+    let same = |v: Vec<String>| all_same(&v);
+    match (op, a) {
+        ("add", [x, y]) => {
+            let (x, y) = (parse_big(x)?, parse_big(y)?);
+            let mut z = x.clone();
+            z.inplace_add(&y);
+            let mut w = x.clone();
+            w += &y;
+            Some(same(vec![show_big(&z), show_big(&(x.clone() + y.clone())), show_big(&(&x + &y)), show_big(&w)]))
+        }
+        ("sub", [x, y]) => {
+            let (x, y) = (parse_big(x)?, parse_big(y)?);
+            let mut z = x.clone();
+            let borrow = z.inplace_sub(&y);
+            let mut w = x.clone();
+            w -= &y;
+            let v = same(vec![show_big(&z), show_big(&(x.clone() - y.clone())), show_big(&(&x - &y)), show_big(&w)]);
+            Some(format!("{} {}", v, b01(borrow)))
+        }
+        ("mul", [x, y]) => {
+            let (x, y) = (parse_big(x)?, parse_big(y)?);
+            let mut z = x.clone();
+            z.inplace_mul(&y);
+            let mut w = x.clone();
+            w *= &y;
+            Some(same(vec![show_big(&z), show_big(&(x.clone() * y.clone())), show_big(&(&x * &y)), show_big(&w)]))
+        }
+        ("div", [x, y]) => {
+            let (x, y) = (parse_big(x)?, parse_big(y)?);
+            let mut z = x.clone();
+            let r = z.inplace_div(&y);
+            let q2 = x.clone() / y.clone();
+            Some(format!("{} {}", same(vec![show_big(&z), show_big(&q2)]), show_big(&r)))
+        }
+        ("shl", [x, n]) => {
+            let mut x = parse_big(x)?;
+            x.shift_left(n.parse().ok()?);
+            Some(show_big(&x))
+        }
+        ("shr", [x, n]) => {
+            let mut x = parse_big(x)?;
+            x.shift_right(n.parse().ok()?);
+            Some(show_big(&x))
+        }
+        ("mask", [x, n]) => {
+            let mut x = parse_big(x)?;
+            x.mask(n.parse().ok()?);
+            Some(show_big(&x))
+        }
+        ("powi", [x, n]) => Some(show_big(&parse_big(x)?.powi(n.parse().ok()?))),
+        ("msb", [x]) => Some(format!("{}", parse_big(x)?.msb_index())),
+        ("tz", [x]) => Some(format!("{}", parse_big(x)?.trailing_zeros())),
+        ("cmp", [x, y]) => {
+            let (x, y) = (parse_big(x)?, parse_big(y)?);
+            Some(format!("{} {} {}", show_ord(Some(x.cmp(&y))), b01(x == y), b01(x < y)))
+        }
+        ("dec", [x]) => Some(parse_big(x)?.as_decimal()),
+        ("bin", [x]) => {
+            let x = parse_big(x)?;
+            Some(same(vec![x.as_binary(), format!("{}", x)]))
+        }
+        ("flags", [x]) => {
+            let x = parse_big(x)?;
+            Some(format!("{} {} {}", b01(x.is_zero()), b01(x.is_even()), b01(x.is_odd())))
+        }
+        ("allones", [n]) => Some(show_big(&BigInt::all1s(n.parse().ok()?))),
+        ("onehot", [n]) => Some(show_big(&BigInt::one_hot(n.parse().ok()?))),
+        _ => None,
+    }
+}
+
 fn handle(t: &[&str]) -> Option<String> {
+    if t.len() >= 2 && t[0] == "big" {
+        return big_op(t[1], &t[2..]);
+    }
     if !t.is_empty() && t[0] == "prog" {
         return run_prog(&t[1..]);
     }
@@ -381,6 +456,58 @@ fn handle(t: &[&str]) -> Option<String> {
             let f = parse_sem(s)?;
             let n: u64 = n.parse().ok()?;
             Some(show_flt(&parse_flt(f, a)?.powi(n)))
+        }
+        ["disp", s, a] => Some(parse_flt(parse_sem(s)?, a)?.to_string()),
+        ["parse", s, h] => {
+            let f = parse_sem(s)?;
+            let bytes: Vec<u8> = if *h == "-" {
+                Vec::new()
+            } else {
+                if h.len() % 2 != 0 {
+                    return None;
+                }
+                let mut v = Vec::new();
+                for i in (0..h.len()).step_by(2) {
+                    v.push(u8::from_str_radix(&h[i..i + 2], 16).ok()?);
+                }
+                v
+            };
+            let st = String::from_utf8(bytes).ok()?;
+            Some(match Float::try_from_str(&st, f) {
+                Ok(x) => format!("ok {}", show_flt(&x)),
+                Err(_) => "err".to_string(),
+            })
+        }
+        ["const", name, s] => {
+            let f = parse_sem(s)?;
+            Some(show_flt(&match *name {
+                "pi" => Float::pi(f),
+                "e" => Float::e(f),
+                "ln2" => Float::ln2(f),
+                _ => return None,
+            }))
+        }
+        ["fn", name, s, a] => {
+            let x = parse_flt(parse_sem(s)?, a)?;
+            Some(show_flt(&match *name {
+                "exp" => x.exp(),
+                "log" => x.log(),
+                "sigmoid" => x.sigmoid(),
+                "sin" => x.sin(),
+                "cos" => x.cos(),
+                "tan" => x.tan(),
+                "sqr" => x.sqr(),
+                _ => return None,
+            }))
+        }
+        ["pow", s, a, b] => {
+            let f = parse_sem(s)?;
+            Some(show_flt(&parse_flt(f, a)?.pow(&parse_flt(f, b)?)))
+        }
+        ["frac", s, n, a] => {
+            let f = parse_sem(s)?;
+            let (p, q) = parse_flt(f, a)?.as_fraction(n.parse().ok()?);
+            Some(format!("{}/{}", show_big(&p), show_big(&q)))
         }
         ["f32", d] => {
             let b: u32 = d.parse().ok()?;
